@@ -34,7 +34,7 @@ def prove(plan, repo, tier):
     from vf import lib, idioms
     from vf.driver import verify, counter_models
     from vf.solve import ok
-    out = dict(obligations=[], undecided=[], assumptions=set(), functions=[], engine_errors=[], axioms=[], lemmas=0)
+    out = dict(obligations=[], undecided=[], assumptions=set(), functions=[], engine_errors=[], axioms=[], lemmas=0, callees={})
     for ment in plan.get("modules", []):
         modname = ment["name"]
         try:
@@ -63,6 +63,7 @@ def prove(plan, repo, tier):
             out["obligations"].append(dict(name=o.name, kind=o.kind, status=o.status, backend=o.backend, secs=round(o.secs, 3), line=o.loc, module=modname,
                                            own=own, ok=ok(o), second=getattr(o, "second", None), _o=o, _reg=reg, _quals=quals))
         out["undecided"] += undecided
+        for f_, cs_ in getattr(th, "callees", {}).items(): out["callees"].setdefault(f_, set()).update(cs_)
         out["assumptions"] |= set(th.assumptions)
         out["axioms"] += [f"{n}: {j}" for n, _, j in reg.axioms]
         out["lemmas"] += len(reg.lemmas)
@@ -148,6 +149,12 @@ def main():
     for o in own:
         if o["kind"] == "static" and not o["ok"]: P["undecided"].append((o["name"], "structural sufficient condition does not hold on this source: " + str(getattr(o["_o"], "detail", ""))[:200]))
     failed = [o for o in own if not o["ok"] and o["kind"] != "static"]
+    # modular soundness: a caller is checked against its callee's CONTRACT; while the callee itself could not be checked against that contract in this run (it left the subset,
+    # its loops changed, ...), a caller's failed obligation says nothing about the property -- undecided, never a verdict
+    und_fns = {q.split(":")[0] for q, _ in P["undecided"]}
+    shaky = [o for o in failed if P["callees"].get(o["name"].split(":")[0], set()) & und_fns]
+    for o in shaky: P["undecided"].append((o["name"], "the obligation relies on the contract of a callee that is itself undecided in this run: " + ", ".join(sorted(P["callees"][o["name"].split(":")[0]] & und_fns))))
+    failed = [o for o in failed if o not in shaky]
     bviol = (B or {}).get("violations", []) if B else []
     # functions whose hypotheses are contradictory are treated as undecided, never as proved
     vac_fns = {o["name"].split(":")[0] for o in vacuous}
